@@ -305,6 +305,72 @@ fn main() {
             }
             extra = json!({"names_checked": checked});
         }
+        // C14: an adapter call made from a destructor while the thread unwinds is scoped like any other
+        "adapter-call-in-drop-while-unwinding" => {
+            use futures::Sink;
+            use std::task::{Context, Poll};
+            struct Inner;
+            impl Sink<u32> for Inner {
+                type Error = ();
+                fn poll_ready(self: std::pin::Pin<&mut Self>, _: &mut Context<'_>) -> Poll<Result<(), ()>> {
+                    let _l = LocalSpan::enter_with_local_parent("ready");
+                    Poll::Ready(Ok(()))
+                }
+                fn start_send(self: std::pin::Pin<&mut Self>, _: u32) -> Result<(), ()> {
+                    let _l = LocalSpan::enter_with_local_parent("send");
+                    Ok(())
+                }
+                fn poll_flush(self: std::pin::Pin<&mut Self>, _: &mut Context<'_>) -> Poll<Result<(), ()>> {
+                    let _l = LocalSpan::enter_with_local_parent("flush");
+                    Poll::Ready(Ok(()))
+                }
+                fn poll_close(self: std::pin::Pin<&mut Self>, _: &mut Context<'_>) -> Poll<Result<(), ()>> {
+                    let _l = LocalSpan::enter_with_local_parent("close");
+                    Poll::Ready(Ok(()))
+                }
+            }
+            /// closes the sink when its owner goes away, also when that happens by unwinding
+            struct CloseOnDrop<S: Sink<u32> + Unpin>(S);
+            impl<S: Sink<u32> + Unpin> Drop for CloseOnDrop<S> {
+                fn drop(&mut self) {
+                    let waker = futures::task::noop_waker();
+                    let mut cx = Context::from_waker(&waker);
+                    let _ = std::pin::Pin::new(&mut self.0).poll_flush(&mut cx);
+                    let _ = std::pin::Pin::new(&mut self.0).poll_close(&mut cx);
+                }
+            }
+            std::panic::set_hook(Box::new(|_| {}));
+            let rep = Rep::default();
+            fastrace::set_reporter(rep.clone(), Config::default());
+            for (k, unwinding) in [false, true].into_iter().enumerate() {
+                let tid = 0xAD00 + k as u128;
+                let root = Span::root("root", SpanContext::new(TraceId(tid), SpanId(1)));
+                let span = Span::enter_with_parent("sink", &root);
+                let r = std::thread::spawn(move || {
+                    let waker = futures::task::noop_waker();
+                    let mut cx = Context::from_waker(&waker);
+                    let mut w = CloseOnDrop(fastrace_futures::SinkExt::<u32>::in_span(Inner, span));
+                    let _ = std::pin::Pin::new(&mut w.0).poll_ready(&mut cx);
+                    let _ = std::pin::Pin::new(&mut w.0).start_send(1);
+                    c();
+                    if unwinding {
+                        panic!("an unrelated failure of the worker");
+                    }
+                })
+                .join();
+                assert_eq!(r.is_err(), unwinding);
+                drop(root);
+                fastrace::flush();
+                let recs: Vec<SpanRecord> = rep.0.lock().unwrap().iter().filter(|r| r.trace_id.0 == tid).cloned().collect();
+                let sink_id = recs.iter().find(|r| r.name == "sink").map(|r| r.span_id);
+                let mut kids: Vec<String> = recs.iter().filter(|r| Some(r.parent_id) == sink_id).map(|r| r.name.to_string()).collect();
+                kids.sort();
+                if sink_id.is_none() || kids != ["close", "flush", "ready", "send"] {
+                    panic!("a sink adapter whose owner was dropped {}: its span has the children {:?} (expected close, flush, ready, send); records {:?}", if unwinding { "by a panic unwinding the thread" } else { "normally" }, kids, recs.iter().map(|r| r.name.to_string()).collect::<Vec<_>>());
+                }
+            }
+            extra = json!({"cases": 2});
+        }
         // C14 / C18: a stream that announces its length exactly is still bound to its span until it
         // has returned None
         "stream-with-exact-size-hint" => {
